@@ -708,6 +708,7 @@ type stepper struct {
 }
 
 var hooksPresent bool
+var hooksAbsentReported atomic.Bool
 
 func (s *stepper) Begin(b replay.Behaviour, rng *rand.Rand) error {
 	w := &world{rng: rng}
@@ -716,6 +717,9 @@ func (s *stepper) Begin(b replay.Behaviour, rng *rand.Rand) error {
 		return err
 	}
 	if !hooksPresent && !w.serial {
+		if hooksAbsentReported.Swap(true) {
+			return fmt.Errorf("no sticky.* hook points (see first error)")
+		}
 		return fmt.Errorf("the tree under test has no sticky.* verif hook points (spec/Sticky/hooks.diff not applied): " +
 			"gated schedules cannot be replayed; only Serial behaviours can")
 	}
@@ -796,15 +800,13 @@ func actor(st replay.Step) int {
 	return 0
 }
 
-// bindSlot names the most recent state object created by th that has no slot yet.
-func (w *world) bindSlot(th *thr, slot int) {
-	for i := len(th.states) - 1; i >= 0; i-- {
-		if th.states[i].slot.Load() == 0 {
-			th.states[i].slot.Store(int32(slot))
-			w.slots[slot] = th.states[i]
-			return
-		}
+// bindSlot names the state object th created for its k-th OpenSession call (k from 0).
+func (w *world) bindSlot(th *thr, k, slot int) {
+	if k < 0 || k >= len(th.states) {
+		return
 	}
+	th.states[k].slot.Store(int32(slot))
+	w.slots[slot] = th.states[k]
 }
 
 // learnSession records id and token of sessions opened by a finished request.
@@ -1055,7 +1057,7 @@ func (s *stepper) Step(i int, st replay.Step) (replay.Obs, error) {
 			obs["refused"] = e != "-" && e != "sealfail"
 			if e == "-" || e == "sealfail" {
 				slot := replay.Int(st.Args, "slot")
-				w.bindSlot(th, slot)
+				w.bindSlot(th, th.openCur-1, slot)
 				if w.gated.Load() {
 					w.learnSid(th, slot)
 				}
